@@ -484,44 +484,50 @@ def timer_neighbour_worker(a):
     res = {"viol": [], "stats": {"timer_neighbour_runs": 1, "timer_neighbour_accepts_seen": 0}, "inconc": [], "hash": vcommon.h(["tn", seed, gap]), "hashes": []}
     ida, idb = rng.sample([3, 9, 40, 1029, 70000], 2)
     nb = a.get("neighbours", 1)
+    ta = {}
+    seen_at = {}
     try:
         for k in range(nb):
             s.do({"t": "announce", "id": idb + 100 * k, "ip": "192.0.2.%d" % (10 + k), "port": 1001})
             if rng.random() < 0.5:
                 s.do({"t": "nick", "id": idb + 100 * k, "name": "nb"})
-        time.sleep(gap)
-        ta = time.time()
-        s.do({"t": "announce", "id": ida, "ip": "192.0.2.2", "port": 1002})
-        for ev in ({"t": "password", "id": ida, "text": "+x alice pw"}, {"t": "host", "id": ida, "name": "ha"}, {"t": "ident", "id": ida, "name": "ia"},
-                   {"t": "nick", "id": ida, "name": "na"}, {"t": "userinfo", "id": ida, "user": "ua", "real": "A"}, {"t": "hurry", "id": ida}):
-            s.do(ev)
-        seen_at = None
-        while time.time() < ta + 2.8 and not s.dead and seen_at is None:
+        # four soft-held clients follow, one every `gap` seconds
+        for j in range(4):
+            time.sleep(gap)
+            cid = ida + 7 * j
+            ta[cid] = time.time()
+            s.do({"t": "announce", "id": cid, "ip": "192.0.2.2", "port": 1002 + j})
+            for ev in ({"t": "password", "id": cid, "text": "+x alice pw"}, {"t": "host", "id": cid, "name": "ha"}, {"t": "ident", "id": cid, "name": "ia"},
+                       {"t": "nick", "id": cid, "name": "na"}, {"t": "userinfo", "id": cid, "user": "ua", "real": "A"}, {"t": "hurry", "id": cid}):
+                s.do(ev)
+        while time.time() < max(ta.values()) + 2.8 and not s.dead and len(seen_at) < len(ta):
             time.sleep(0.05)
             out = s.do({"t": "noise", "line": "-1 M irc.example.net 1"})
             now = time.time()
             for ln in out or []:
                 c = proto.classify(ln)
-                if c and c["kind"] == "client" and c["id"] == ida and c["cmd"] in "DR" and seen_at is None:
-                    seen_at = now - ta
+                if c and c["kind"] == "client" and c["id"] in ta and c["cmd"] in "DR" and c["id"] not in seen_at:
+                    seen_at[c["id"]] = now - ta[c["id"]]
                     res["stats"]["timer_neighbour_accepts_seen"] += 1
         s.finish()
     except Exception:
         s.kill()
         raise
-    if seen_at is not None and seen_at < 2.0:
+    early = sorted((cid, t) for cid, t in seen_at.items() if t < 2.0)
+    if early:
         res["viol"].append(("C07", "neighbour-timer", "neighbour-timer",
-                            "client %d, soft-held by an unanswered query, was accepted %.2f s after ITS announcement although the request timeout is 2 s; %d silent client(s) had "
-                            "been announced %.2f s before it (their timer fired for it)\n%s" % (ida, seen_at, nb, gap, prun.render_trace(s.trace, 30)),
+                            "client %d, soft-held by an unanswered query, was accepted %.2f s after ITS announcement although the request timeout is 2 s; other clients had "
+                            "been announced fractions of a second before it (%d silent ones first, then one every %.2f s: a timer of theirs fired for it)\n%s" % (
+                                early[0][0], early[0][1], nb, gap, prun.render_trace(s.trace, 40)),
                             {"seed": seed, "gap": gap, "neighbours": nb, "timer_neighbour": True}))
-    if seen_at is None:
-        res["inconc"].append("a real-timer run saw no acceptance within 2.8 s")
+    if len(seen_at) < len(ta):
+        res["inconc"].append("a real-timer run saw %d of %d acceptances within 2.8 s" % (len(seen_at), len(ta)))
     return res
 
 
 def run(chk, tier, scale=1.0):
     b = prun.build_daemon("c07-" + tier)
-    tn = vcommon.pmap(timer_neighbour_worker, [dict(build=b, seed=chk.seed * 31 + k, gap=[0.15, 0.25, 0.35, 0.5][k % 4], neighbours=[1, 1, 3][k % 3])
+    tn = vcommon.pmap(timer_neighbour_worker, [dict(build=b, seed=chk.seed * 31 + k, gap=[0.08, 0.12, 0.17, 0.23][k % 4], neighbours=[1, 1, 3][k % 3])
                                                for k in range(int((12 if tier == "quick" else 96) * max(scale, 0.34)))])
     nsets = int((48 if tier == "quick" else 500) * scale)
     jobs = []
@@ -581,7 +587,7 @@ def run(chk, tier, scale=1.0):
                 "symbolically to 'what I await from service s'; each script is run alone (reference conversation) and in random / round-robin / bursty order-preserving "
                 "interleavings; the projection of the daemon's output on each client (its id, X lines carrying its id; serial renumbered) grouped by the client's own events "
                 "must equal the reference, and no line about a client may appear in another client's step; every second interleaving is also written to a fresh daemon in ONE piece "
-                "(no sync lines) and must give the same stdout; guarded table audit every 50 steps; directed sets: a leaver / a client that retries after AGAIN next to a client waiting on a service that a reload removes; a holder answered AGAIN / MORE whose id comes back and receives the late answer to the first holder; real-timer runs (2 s timeout, no hook-driven expiry): a soft-held client announced 0.15-0.5 s after one or three silent ones must not be accepted before ITS 2 s are over (one-sided wall clock); a third of the sets has 1-2 SIGUSR1 reloads switching the service table at a fixed "
+                "(no sync lines) and must give the same stdout; guarded table audit every 50 steps; directed sets: a leaver / a client that retries after AGAIN next to a client waiting on a service that a reload removes; a holder answered AGAIN / MORE whose id comes back and receives the late answer to the first holder; real-timer runs (2 s timeout, no hook-driven expiry): four soft-held clients announced 0.1-0.2 s apart after one or three silent ones must each not be accepted before ITS OWN 2 s are over (one-sided wall clock); a third of the sets has 1-2 SIGUSR1 reloads switching the service table at a fixed "
                 "place of every client's script (solo reference with the reloads at the same places); scripts may re-use their id while a query of the previous holder is unanswered "
                 "and then receive the late answer to the previous holder; sets of 18-30 clients drive the serials into two hex digits; "
                 "a case = one interleaving of one script set (distinct by hash); non-trivial = conversations were compared")
